@@ -1,1 +1,3 @@
 // Kani harnesses compiled into the real crate under cfg(kani); see /verif/DESIGN.md 2.2
+// K04 (replace_newlines) dropped: `memchr::memchr_iter` reaches `__cpuid_count` (inline asm), which
+// Kani 0.68 does not support ("TerminatorKind::InlineAsm is not currently supported").
